@@ -750,3 +750,8 @@ def _prebuild(world, modname, node, ns):
 
 def decoy_imported(modname, filename=None):
     emit('mod.import', mod=modname, file=filename, decoy=True)
+
+
+def file_imported(modname, filename=None):
+    """Called at import time by every .py file of a discovery tree."""
+    emit('file.import', mod=modname, file=filename)
